@@ -5,7 +5,33 @@ import Bmc.Proofs.C07.Sdr
 import Bmc.Proofs.C07.Setup
 import Bmc.Proofs.C07.Dcmi
 import Bmc.Proofs.C07.Api
-import Bmc.Proofs.GenDec
+import Bmc.Proofs.GenDec.TranslatedOk
+import Bmc.Proofs.GenDec.ReserveSDRRepositoryRsp
+import Bmc.Proofs.GenDec.GetSystemGUIDRsp
+import Bmc.Proofs.GenDec.SetSessionPrivilegeLevelRsp
+import Bmc.Proofs.GenDec.GetSDRRsp
+import Bmc.Proofs.GenDec.SDR
+import Bmc.Proofs.GenDec.GetSensorReadingRsp
+import Bmc.Proofs.GenDec.GetChannelCipherSuitesRsp
+import Bmc.Proofs.GenDec.GetChannelAuthenticationCapabilitiesRsp
+import Bmc.Proofs.GenDec.GetSDRRepositoryInfoRsp
+import Bmc.Proofs.GenDec.GetPowerReadingRsp
+import Bmc.Proofs.GenDec.GetChassisStatusRsp
+import Bmc.Proofs.GenDec.GetDeviceIDRsp
+import Bmc.Proofs.GenDec.RAKPMessage4
+import Bmc.Proofs.GenDec.RAKPMessage2
+import Bmc.Proofs.GenDec.RAKPMessage1
+import Bmc.Proofs.GenDec.V1Session
+import Bmc.Proofs.GenDec.GetSessionInfoRsp
+import Bmc.Proofs.GenDec.OpenSessionRsp
+import Bmc.Proofs.GenDec.GetDCMICapabilitiesInfoManageabilityAccessAttrsRsp
+import Bmc.Proofs.GenDec.GetDCMICapabilitiesInfoOptionalPlatformAttrsRsp
+import Bmc.Proofs.GenDec.GetDCMICapabilitiesInfoSupportedCapabilitiesRsp
+import Bmc.Proofs.GenDec.GetDCMICapabilitiesInfoMandatoryPlatformAttrsRsp
+import Bmc.Proofs.GenDec.SessionSelector
+import Bmc.Proofs.GenDec.Message
+import Bmc.Proofs.GenDec.GetDCMICapabilitiesInfoEnhancedSystemPowerStatisticsAttrsRsp
+import Bmc.Proofs.GenDec.GetDCMISensorInfoRsp
 #print axioms Bmc.Proofs.C07.deviceID_decode_spec
 #print axioms Bmc.Proofs.C07.deviceID_short
 #print axioms Bmc.Proofs.C07.message_decode_spec_response
